@@ -76,6 +76,15 @@ def _dt(d: typing.Any, none_ok: bool = False) -> typing.Any:
         return int64
     if d is builtins.float or d is sym.FloatProxy:
         return float64
+    if isinstance(d, str):
+        names = {x.name: x for x in (uint8, uint16, uint32, uint64, int8, int16, int32, int64, float16, float32, float64, bool_, object_)}
+        if d in names:
+            return names[d]
+        code = d[1:] if d[:1] in "<=|" else d                       # little-endian / native / not applicable (this host is little-endian)
+        if len(code) == 2 and code[0] in "uif" and code[1] in "1248":
+            nm = {"u": "uint", "i": "int", "f": "float"}[code[0]] + str(8 * int(code[1]))
+            if nm in names:
+                return names[nm]
     if none_ok:
         return None
     raise Unsupported(f"dtype {d!r}")
@@ -172,7 +181,9 @@ class ndarray:
         if d is self.dtype:
             return self
         if d is not uint8:
-            raise Unsupported("view() to a type other than uint8")
+            if self.dtype is uint8 and d.kind in "uif":
+                return frombuffer(self, d)                            # reinterpret the bytes (little-endian host)
+            raise Unsupported("view() between two non-byte types")
         out: list = []
         for c in self.raw():
             out += _to_le_bytes(c, self.dtype)
